@@ -37,12 +37,21 @@ PRED_DOC = {
     "round-writes": "the raft commands the REAL round function submitted (replicateACLType / replicateConfig / "
                     "IndexReplicator.Replicate through leaderRaftApply on a real single-node raft) delete exactly the diff's "
                     "deletions and upsert exactly its upserts, every id once, all accepted",
+    "index-honest": "the index the real round handed back is honest: every object the primary listed with a modify index up to it "
+                    "has the primary's content in the secondary afterwards (the next round's Consistent assumption)",
+    "no-stale-body": "every replicated object after the round has the content it had before or the listed (current) one - never "
+                     "the older body a lagging server of the primary returned for the batch read",
+    "next-round-converges": "after a round whose batch read was stale, the next fault-free REAL round (started from the index "
+                            "handed back, or the old one after an error) makes the secondary equal to the primary",
+    "stale-fetch": "fold of index-honest / no-stale-body / next-round-converges for a round with a fetch fault",
+    "fed-primary-index": "a federation state written by the round remembers the primary's modify index it was copied at",
     "apply-ok": "every raft command built from the diff was accepted by the real FSM / state store",
     "apply-model": "the spec's ApplyDiff(pre, dels, ups, remote) equals the real store's post state (content view)",
     "env": "NOT a verdict: the harness fed an input outside the environment assumption (infrastructure error)",
 }
 PREDS = set(PRED_DOC) - {"env"}
-SLIM = ("typ", "kind", "last", "pre", "inL", "inR", "dels", "ups", "lskip", "rskip", "post", "err", "writes", "cmds")
+SLIM = ("typ", "kind", "last", "pre", "inL", "inR", "dels", "ups", "lskip", "rskip", "post", "err", "writes", "cmds",
+        "pidx", "ridx", "fault", "err2", "post2")
 SHOW = SLIM + ("errclass", "errmsg")
 
 ASSUMPTIONS = [
@@ -65,12 +74,16 @@ ASSUMPTIONS = [
 ALL = ("acl", "config", "fed")
 
 
-def cfg_text(mode, kinds, ids, mis, lasts, legl=0, legr=0, lo=(), unhashed=False, perms=False, legcs=(1,), runok=True):
+def cfg_text(mode, kinds, ids, mis, lasts, legl=0, legr=0, lo=(), unhashed=False, perms=False, legcs=(1,), runok=True,
+             ridxs=None, faults=False):
+    # ridxs: indexes the primary answers with; default = never below lastRemoteIndex
+    ridxs = ridxs or (max(max(mis), max(lasts)),)
     s = lambda xs: "{" + ", ".join(str(x) for x in xs) + "}"
     b = lambda v: "TRUE" if v else "FALSE"
     head = ("SPECIFICATION Spec\nCONSTANTS\n  Kinds = {%s}\n  Ids = %s\n  Cs = {1, 7}\n  LegacyCs = %s\n  Mis = %s\n  Lasts = %s\n"
-            "  MaxLegacyL = %d\n  MaxLegacyR = %d\n  LoIds = %s\n  Unhashed = %s\n  Perms = %s\n") % (
-        ", ".join('"%s"' % k for k in kinds), s(ids), s(legcs), s(mis), s(lasts), legl, legr, s(lo), b(unhashed), b(perms))
+            "  MaxLegacyL = %d\n  MaxLegacyR = %d\n  LoIds = %s\n  Unhashed = %s\n  Perms = %s\n  RIdxs = %s\n  Faults = %s\n  OldCs = {2}\n") % (
+        ", ".join('"%s"' % k for k in kinds), s(ids), s(legcs), s(mis), s(lasts), legl, legr, s(lo), b(unhashed), b(perms),
+        s(ridxs), b(faults))
     if mode == "mc":
         return head + ("INVARIANTS InvEnv InvCursor InvSorted InvRoundOK%s\nPROPERTIES PropTerminates PropInputsStable\n"
                        "CHECK_DEADLOCK TRUE\n") % (" InvRunOK" if runok else "")
@@ -84,8 +97,11 @@ MC = {
         ("all-3ids", dict(kinds=ALL, ids=(1, 2, 3), mis=(1, 2), lasts=(0, 1))),
         ("legacy-localonly-unhashed", dict(kinds=("acl", "config"), ids=(1, 2), mis=(1, 2), lasts=(0, 1), legl=1, legr=1,
                                            lo=(2, 3), unhashed=True, legcs=(1, 2))),
+        # lastRemoteIndex 3 > the primary's index 2: it went backwards; fetch faults of ACL rounds
+        ("backwards-and-stale-fetch", dict(kinds=ALL, ids=(1, 2), mis=(1, 2), lasts=(0, 1, 3), ridxs=(2,), faults=True)),
     ],
     "thorough": [
+        ("backwards-and-stale-fetch", dict(kinds=ALL, ids=(1, 2, 3), mis=(1, 2), lasts=(1, 3), ridxs=(2,), faults=True)),
         ("acl-4ids", dict(kinds=("acl",), ids=(1, 2, 3, 4), mis=(1, 2, 3), lasts=(0, 1, 2, 3), runok=False)),
         ("config-fed-3ids", dict(kinds=("config", "fed"), ids=(1, 2, 3), mis=(1, 2), lasts=(0, 1, 2))),
         ("legacy-localonly-unhashed", dict(kinds=("acl", "config"), ids=(1, 2, 3), mis=(1, 2), lasts=(1,), legl=1, legr=1,
@@ -101,8 +117,12 @@ GEN = {
         ("all-3ids", dict(kinds=ALL, ids=(1, 2, 3), mis=(1, 2), lasts=(1,))),
         ("legacy-localonly-unhashed", dict(kinds=("acl", "config"), ids=(1, 2), mis=(1, 2), lasts=(0, 1), legl=1, legr=1,
                                            lo=(3,), unhashed=True)),
+        ("backwards", dict(kinds=ALL, ids=(1, 2), mis=(1, 2), lasts=(3,), ridxs=(2,))),
+        ("stale-fetch", dict(kinds=("acl",), ids=(1, 2), mis=(1, 2), lasts=(0, 1), ridxs=(2,), faults=True)),
     ],
     "thorough": [
+        ("backwards", dict(kinds=ALL, ids=(1, 2, 3), mis=(1, 2), lasts=(3,), ridxs=(2,))),
+        ("stale-fetch", dict(kinds=("acl",), ids=(1, 2, 3), mis=(1, 2), lasts=(1,), ridxs=(2,), faults=True)),
         ("all-3ids", dict(kinds=ALL, ids=(1, 2, 3), mis=(1, 2), lasts=(0, 1, 2))),
         ("acl-3ids-full", dict(kinds=("acl",), ids=(1, 2, 3), mis=(1, 2, 3), lasts=(0, 1, 2, 3))),
         ("acl-4ids", dict(kinds=("acl",), ids=(1, 2, 3, 4), mis=(1, 2), lasts=(1,))),
@@ -121,6 +141,8 @@ def typ_for(c, i):
         return c["kind"]
     if any(o["lo"] for o in c["sec"]):
         return "token"
+    if c.get("fault", {}).get("t", "none") != "none":
+        return ("policy", "token")[i % 2]     # role rounds have no batch read: the bodies come with the listing
     return ACL_TYPES[i % 3]
 
 
@@ -137,6 +159,8 @@ def shuffled_case(c, typ, rng):
         rng.shuffle(c[k])
     c["order"] = "given" if rng.random() < 0.5 else "store"
     c["seed"] = rng.getrandbits(62)
+    c["back"] = c.get("ridx", c["last"]) < c["last"]      # the primary's index went backwards
+    c.setdefault("fault", {"t": "none", "id": 0, "oc": 0, "mod": False})
     return c
 
 
@@ -150,8 +174,24 @@ POST_PREDS = {"post-equals-remote", "apply-model", "others-untouched", "local-on
 HASH_CONSEQ = {"diff-sound", "post-equals-remote", "equal-no-writes"}
 
 
+# a round whose batch read was answered by a lagging server: all of these say "the stale / missing body got through";
+# they are folded into one violation  C19:stale-fetch:<type>/<shape of the fault>
+FAULT_PREDS = {"index-honest", "no-stale-body", "next-round-converges"}
+FAULT_CONSEQ = FAULT_PREDS | {"post-equals-remote", "apply-ok", "round-writes", "diff-sound", "apply-model", "others-untouched"}
+
+
+def fold(row, names):
+    """predicate names of one rejected round -> names that become violations"""
+    names = [n for n in names if n in PREDS]
+    if row.get("shape", "none") != "none" and FAULT_PREDS & set(names):
+        return ["stale-fetch"] + [n for n in names if n not in FAULT_CONSEQ]
+    return [n for n in names if not ((row["err"] != "none" and n in POST_PREDS) or ("hash-faithful" in names and n in HASH_CONSEQ))]
+
+
 def ev_sig(row, pred):
     """<id>:<predicate>:<object type>[/<class of the rejected write>]"""
+    if pred == "stale-fetch":
+        return "%s:stale-fetch:%s/%s" % (PID, row["typ"], row["shape"])
     feat = ("/" + row.get("errclass", "other")) if (pred == "apply-ok" and row["err"] != "none") else ""
     return "%s:%s:%s%s" % (PID, pred, row["typ"], feat)
 
@@ -187,6 +227,18 @@ def stats_of(rows, st):
         st["empty_local"] += bool(R and not L)
         st["empty_remote"] += bool(L and not R)
         # a deleted object and an upserted one need the same unique name (content 7 of policies / roles)
+        # the primary's index went backwards: full comparison forced
+        back = r["pidx"] < r["last"]
+        st["index_backwards"] += back
+        st["index_backwards_fed_lower_than_recorded"] += bool(back and r["typ"] == "fed" and any(
+            i in R and R[i]["c"] != o["c"] and R[i]["mi"] <= o["pmi"] for i, o in L.items()))
+        # fetch faults: the faulted object is one of the upserts
+        hitf = r["shape"] != "none" and r["fault"]["id"] in r["ups"]
+        st["fetch_fault_hit"] += hitf
+        st["fetch_fault_policy_stale"] += bool(hitf and r["typ"] == "policy" and r["shape"] == "stale")
+        st["fetch_fault_policy_omit_new"] += bool(hitf and r["typ"] == "policy" and r["shape"] == "omit-new")
+        st["fetch_fault_rejected_by_round"] += bool(hitf and r["err"] != "none")
+        st["fetch_fault_not_hit"] += bool(r["shape"] != "none" and not hitf)
         st["name_reused_by_create"] += bool(r["typ"] in ("policy", "role") and any(L[i]["c"] == 7 for i in r["dels"] if i in L)
                                             and any(R[i]["c"] == 7 for i in r["ups"] if i in R))
 
@@ -230,9 +282,7 @@ def judge(tagged, work, verdict, pred_hits):
             source, row = tagged[base + line - 1]
             if "env" in names:
                 raise vf.Infra("input outside the environment assumption (%s): %s" % (source, json.dumps(row["case"])))
-            for nm in names:
-                if nm not in PREDS or (row["err"] != "none" and nm in POST_PREDS) or ("hash-faithful" in names and nm in HASH_CONSEQ):
-                    continue
+            for nm in fold(row, names):
                 pred_hits[nm] = pred_hits.get(nm, 0) + 1
                 verdict.add(ev_sig(row, nm),
                             "predicate %s rejected by TLC (%s): typ=%s last=%d inL=%s inR=%s dels=%s ups=%s post=%s err=%s %s" % (
@@ -263,7 +313,9 @@ def run(tier):
     pred_hits, samples, nontrivial = {}, [], set()
     stats = {k: 0 for k in ("rounds", "deletes", "upserts_new", "upserts_changed", "skip_by_index", "skip_by_hash", "legacy_local",
                             "legacy_remote", "local_only", "unhashed", "already_equal", "local_run_at_end", "remote_run_at_end",
-                            "empty_local", "empty_remote", "name_reused_by_create")}
+                            "empty_local", "empty_remote", "name_reused_by_create",
+                            "index_backwards", "index_backwards_fed_lower_than_recorded", "fetch_fault_hit", "fetch_fault_policy_stale",
+                            "fetch_fault_policy_omit_new", "fetch_fault_rejected_by_round", "fetch_fault_not_hit")}
     cov = {"mc": [], "gen": [], "random": {}}
     n_cases = 0
     tagged = []
@@ -410,9 +462,7 @@ def replay(path):
     bad = 0
     for line, names in r.rejects:
         row = rows[line - 1]
-        for nm in names:
-            if (row["err"] != "none" and nm in POST_PREDS) or ("hash-faithful" in names and nm in HASH_CONSEQ):
-                continue
+        for nm in fold(row, names):
             print("round rejected: %s  typ=%s last=%d inL=%s inR=%s dels=%s ups=%s post=%s err=%s %s" % (
                 nm, row["typ"], row["last"], json.dumps(row["inL"]), json.dumps(row["inR"]), row["dels"], row["ups"],
                 json.dumps(row["post"]), row["err"], row["errmsg"]))
